@@ -51,6 +51,7 @@ func checkC01(p *Prog, r *Report) {
 	checkLocking(p, r, rLock, a, m)
 	checkAdmissionTable(p, r, rTable, rRefuse, a, m)
 	checkTeardownWindow(r, rTear, a, m)
+	checkDoShutdown(p, r, r.Rule("shutdown-flag", "the shutdown flag is set (under the lock) by the very goroutine which then waits for attached streams, before it waits"), a)
 	checkRefusedNoIO(p, r, rIO, a)
 	checkHandlerWiring(p, r, rWire)
 }
